@@ -195,6 +195,9 @@ def exchange_hash(kex, v_c, v_s, i_c, i_s, k_s, client_pub, server_pub, K, gex=N
     h.update(s(v_c) + s(v_s) + s(i_c) + s(i_s) + s(k_s))
     if gex is not None:
         mn, n, mx, p, g = gex
-        h.update(u32(mn) + u32(n) + u32(mx) + mpint(p) + mpint(g))
+        if mn is None:  # old-style request (RFC 4419 section 5): only n was sent, only n is hashed
+            h.update(u32(n) + mpint(p) + mpint(g))
+        else:
+            h.update(u32(mn) + u32(n) + u32(mx) + mpint(p) + mpint(g))
     h.update(_pub(client_pub) + _pub(server_pub) + mpint(K))
     return h.digest()
